@@ -20,7 +20,7 @@ Import ListNotations.
 Local Open Scope list_scope.
 
 (* ---- values ------------------------------------------------------------------------------- *)
-Inductive dtype := I32 | I64 | F32 | F64 | Str.
+Inductive dtype := I8 | I16 | I32 | I64 | U8 | U16 | U32 | U64 | F32 | F64 | Str.
 Inductive scalar := VInt (z : Z) | VFlt (bits : Z) | VStr (s : string).
 Inductive arr := Arr (len id : Z).
 Definition alen (a : arr) : Z := let 'Arr n _ := a in n.
@@ -45,11 +45,17 @@ Definition scalar_eqb (a b : scalar) : bool :=
   | _, _ => false
   end.
 
-(* netCDF4.default_fillvals (i4, i8, f4, f8 as bit patterns); an unwritten string reads "" *)
+(* netCDF4.default_fillvals (i1 i2 i4 i8 u1 u2 u4 u8; f4, f8 as bit patterns); an unwritten string reads "" *)
 Definition fill_of (d : dtype) : scalar :=
   match d with
+  | I8 => VInt (-127)
+  | I16 => VInt (-32767)
   | I32 => VInt (-2147483647)
   | I64 => VInt (-9223372036854775806)
+  | U8 => VInt 255
+  | U16 => VInt 65535
+  | U32 => VInt 4294967295
+  | U64 => VInt 18446744073709551614
   | F32 => VFlt 2096103424             (* 0x7cf00000 *)
   | F64 => VFlt 5160562223013167104    (* 0x479e000000000000 *)
   | Str => VStr ""%string
@@ -57,7 +63,7 @@ Definition fill_of (d : dtype) : scalar :=
 
 (* ThrustModeValues.__getitem__ of a missing mode *)
 Definition zero_of (d : dtype) : scalar :=
-  match d with I32 | I64 => VInt 0 | F32 | F64 => VFlt 0 | Str => VStr ""%string end.
+  match d with F32 | F64 => VFlt 0 | Str => VStr ""%string | _ => VInt 0 end.
 
 Definition empty_arr : arr := Arr 0 0.
 
@@ -458,11 +464,13 @@ Fixpoint read_all (fixed : bool) (sc : schema) (order : list nat) (i n : nat) (s
   | S n' => load_traj fixed sc order i st :: read_all fixed sc order (S i) n' st
   end.
 
-(* one whole case of the correspondence: create, add every trajectory, close, (map), reopen, read all.
+(* one whole case on the merged view of the store (all files as one cell map); [run_case] below does the
+   same on separate files and is proved equal in proofs/C03_Files.v: create, add every trajectory, close,
+   (map), reopen, read all.
    [worder] / [rorder1] / [morder] / [rorder] are the iteration orders of the store's (hash-ordered)
    field-set dictionary in the writing session, in the session that maps over the base store, of the
    mapped field sets, and in the final reading session — observed on the implementation. *)
-Definition run_case (fixed : bool) (sc : schema) (ly : layout) (worder rorder1 morder rorder : list nat)
+Definition run_case_merged (fixed : bool) (sc : schema) (ly : layout) (worder rorder1 morder rorder : list nat)
            (ts : list traj) : outcome :=
   match ts with
   | [] => Added []
@@ -486,4 +494,229 @@ Definition run_case (fixed : bool) (sc : schema) (ly : layout) (worder rorder1 m
             | _ => Added (read_all fixed sc rorder 0 (List.length ts) st)
             end
         end
+  end.
+
+(* ---- the files of a store, separately ----------------------------------------------------------- *)
+(* Each NetCDF file has its own species dimension and its own variables.  This is the model the
+   correspondence runs; the merged [store] above is its abstraction (proofs/C03_Files.v). *)
+Record ncfile := { f_sets : list nat;        (* field sets (groups) in the file *)
+                   f_species : list nat;     (* the file's species dimension *)
+                   f_cells : cells }.        (* its variables *)
+Definition cstore := list ncfile.
+Definition no_file : ncfile := {| f_sets := []; f_species := []; f_cells := [] |}.
+
+(* self._nc[fs_name]: the file that holds a field set *)
+Fixpoint file_index (fs : nat) (st : cstore) : option nat :=
+  match st with
+  | [] => None
+  | f :: r => if memb fs (f_sets f) then Some O
+              else match file_index fs r with Some k => Some (S k) | None => None end
+  end.
+
+Fixpoint update_nth {A} (k : nat) (x : A) (l : list A) : list A :=
+  match l, k with
+  | [], _ => []
+  | _ :: r, O => x :: r
+  | y :: r, S k' => y :: update_nth k' x r
+  end.
+
+Definition set_cells (f : ncfile) (c : cells) : ncfile :=
+  {| f_sets := f_sets f; f_species := f_species f; f_cells := c |}.
+
+Fixpoint write_traj_c (fixed : bool) (sc : schema) (order : list nat) (i : nat) (t : traj) (st : cstore)
+  : res cstore :=
+  match order with
+  | [] => inl st
+  | fs :: rest =>
+      match file_index fs st with
+      | None => inr EOther
+      | Some k =>
+          let f := nth k st no_file in
+          match write_fields fixed (f_species f) fs i 0 (nth fs sc []) (nth fs t []) (f_cells f) with
+          | inr e => inr e
+          | inl c' => write_traj_c fixed sc rest i t (update_nth k (set_cells f c') st)
+          end
+      end
+  end.
+
+Fixpoint read_raw_c (fixed : bool) (sc : schema) (order : list nat) (i : nat) (st : cstore)
+  : res (list (fmeta * res fval)) :=
+  match order with
+  | [] => inl []
+  | fs :: rest =>
+      match file_index fs st with
+      | None => inr EOther
+      | Some k =>
+          let f := nth k st no_file in
+          match read_raw_c fixed sc rest i st with
+          | inr e => inr e
+          | inl l => inl (read_fields fixed (f_species f) (f_cells f) fs i 0 (nth fs sc []) ++ l)
+          end
+      end
+  end.
+
+Definition load_traj_c (fixed : bool) (sc : schema) (order : list nat) (i : nat) (st : cstore) : res (list fval) :=
+  match read_raw_c fixed sc order i st with
+  | inr e => inr e
+  | inl l => match scan fixed None l with
+             | inr e => inr e
+             | inl (n, vs) => convert_all n vs
+             end
+  end.
+
+Definition new_file (sets sp : list nat) : ncfile := {| f_sets := sets; f_species := sp; f_cells := [] |}.
+
+(* CREATE: the base file, and the associated file if one was asked for, both with the species of the
+   whole first trajectory (store.py:_create); for a store that is mapped later, the base file only *)
+Definition create_files (sc : schema) (ly : layout) (t0 : traj) : cstore :=
+  match ly with
+  | Single => [new_file (all_sets sc) (species_union (all_sets sc) t0)]
+  | Assoc a => [new_file (minus (all_sets sc) a) (species_union (all_sets sc) t0);
+                new_file a (species_union (all_sets sc) t0)]
+  | Mapped a => [new_file (minus (all_sets sc) a) (species_union (minus (all_sets sc) a) t0)]
+  end.
+
+(* create_associated: one more file, with the species of the first mapped result *)
+Definition add_mapped_file_c (a : list nat) (t0 : traj) (st : cstore) : cstore :=
+  st ++ [new_file a (species_union a t0)].
+
+Fixpoint add_all_c (fixed : bool) (sc : schema) (order : list nat) (i : nat) (ts : list traj) (st : cstore)
+  : cstore * option (nat * err) :=
+  match ts with
+  | [] => (st, None)
+  | t :: r =>
+      match write_traj_c fixed sc order i t st with
+      | inr e => (st, Some (i, e))
+      | inl st' => add_all_c fixed sc order (S i) r st'
+      end
+  end.
+
+Fixpoint map_all_c (fixed : bool) (sc : schema) (rorder1 morder : list nat) (i : nat) (ts : list traj)
+         (st : cstore) : cstore * option (nat * err) :=
+  match ts with
+  | [] => (st, None)
+  | t :: r =>
+      match load_traj_c fixed sc rorder1 i st with
+      | inr e => (st, Some (i, e))
+      | inl _ =>
+          match write_traj_c fixed sc morder i t st with
+          | inr e => (st, Some (i, e))
+          | inl st' => map_all_c fixed sc rorder1 morder (S i) r st'
+          end
+      end
+  end.
+
+Fixpoint read_all_c (fixed : bool) (sc : schema) (order : list nat) (i n : nat) (st : cstore)
+  : list (res (list fval)) :=
+  match n with
+  | O => []
+  | S n' => load_traj_c fixed sc order i st :: read_all_c fixed sc order (S i) n' st
+  end.
+
+(* one whole case of the correspondence, on separate files: create, add every trajectory, close, (map),
+   reopen, read all.  [worder] / [rorder1] / [morder] / [rorder] are the iteration orders of the store's
+   (hash-ordered) field-set dictionary in the writing session, in the session that maps over the base
+   store, of the mapped field sets, and in the final reading session — observed on the implementation. *)
+Definition run_case (fixed : bool) (sc : schema) (ly : layout) (worder rorder1 morder rorder : list nat)
+           (ts : list traj) : outcome :=
+  match ts with
+  | [] => Added []
+  | t0 :: _ =>
+      if negb fixed && unset_species_field sc (phase1_sets sc ly) t0 then Refused 1 0 EAssert
+      else
+        match add_all_c fixed sc worder 0 ts (create_files sc ly t0) with
+        | (_, Some (k, e)) => Refused 1 k e
+        | (st, None) =>
+            match ly with
+            | Mapped a =>
+                match load_traj_c fixed sc rorder1 0 st with
+                | inr e => Refused 2 0 e
+                | inl _ =>
+                    if negb fixed && unset_species_field sc a t0 then Refused 2 0 EAttr
+                    else match map_all_c fixed sc rorder1 morder 0 ts (add_mapped_file_c a t0 st) with
+                         | (_, Some (k, e)) => Refused 2 k e
+                         | (st', None) => Added (read_all_c fixed sc rorder 0 (List.length ts) st')
+                         end
+                end
+            | _ => Added (read_all_c fixed sc rorder 0 (List.length ts) st)
+            end
+        end
+  end.
+
+(* ---- the facts about store.py the model embodies --------------------------------------------------- *)
+(* translator/c03_extract.py regenerates a value of this record from the source on every run
+   (Gen.C03_Extracted.facts); link/C03_Link.v proves it equal to [facts_of true] (the repaired code) or
+   [facts_of false]; proofs/C03_Facts.v ties each field to the model function it governs. *)
+Inductive seq_src :=
+  | OverFileSpecies        (* enumerate(species): the species dimension of the file that holds the variable *)
+  | OverSpeciesEnum        (* enumerate(Species): every member of the enumeration *)
+  | OverThrustModes.       (* enumerate(ThrustMode) *)
+
+Inductive wcase :=         (* body of one case of the writer's match (has_sp, has_tm) *)
+  | WPlain                             (* var[index] = val *)
+  | WModes (m : seq_src)               (* for ti, tm in enumerate(m): var[index, ti] = val[tm] *)
+  | WSpecies (s : seq_src)             (* for si, sp in enumerate(s): if sp in val: var[index, si] = val[sp] *)
+  | WSpeciesModes (s m : seq_src).     (* nested; if sp in val and tm in val[sp]: var[index, si, ti] = val[sp][tm] *)
+
+Inductive rcase :=         (* body of one case of the reader's match (species, thrust mode, point) *)
+  | RScalarFillNone                    (* fill value -> None, else var[index] *)
+  | RArrayEmptyNone                    (* all(var[index] == fill) (= empty array) -> None, else var[index] *)
+  | RSpecies (s : seq_src) (skip : bool)            (* {sp: var[index, si]}, skipping unwritten entries or not *)
+  | RModes (m : seq_src) (skip : bool)
+  | RSpeciesModes (s m : seq_src) (skip : bool).
+
+Record code_facts := {
+  cf_write : list (bool * bool * wcase);             (* dispatch table of _write_to_nc_var *)
+  cf_write_refuses_unknown_species : bool;           (* the `not in species` guard before the match *)
+  cf_write_none : bool * bool;                       (* val is None: (required -> ValueError, optional -> nothing written) *)
+  cf_writer_gets_species_of_its_file : bool;         (* _write_data passes nc_file.species *)
+  cf_read : list (bool * bool * bool * rcase);       (* dispatch table of _read_from_nc_var *)
+  cf_written_test : bool * bool;                     (* written(v): (no fill -> len(v) > 0, fill -> v != fill); fill is
+                                                        None for per-point and string variables *)
+  cf_read_empty_optional_is_none : bool;             (* `if len(val) == 0 and not field.required: return None` *)
+  cf_reader_gets_species_of_its_file : bool;         (* _load_trajectory passes nc_files.species of the field set's file *)
+  cf_npoints_skips_unset : bool;                     (* the point count is taken from the first field that has one *)
+  cf_species_dim_from_argument : bool;               (* _create_dimensions: the species dimension is the `species` argument *)
+  cf_modes_dim_from_enum : bool;                     (* ... the thrust-mode dimension is the whole enumeration *)
+  cf_create_species_of_first_trajectory : bool;      (* _create: proto.species for the base and every associated file *)
+  cf_mapped_species_of_first_result : bool;          (* create_associated: sorted(species of the first mapped result) *)
+  cf_species_skip_unset_fields : bool                (* Container.species / create_associated skip None fields *)
+}.
+
+Definition facts_of (fixed : bool) : code_facts :=
+  let s := if fixed then OverFileSpecies else OverSpeciesEnum in
+  {| cf_write := [(false, false, WPlain); (false, true, WModes OverThrustModes);
+                  (true, false, WSpecies s); (true, true, WSpeciesModes s OverThrustModes)];
+     cf_write_refuses_unknown_species := fixed;
+     cf_write_none := (true, true);
+     cf_writer_gets_species_of_its_file := fixed;
+     cf_read := [(false, false, false, RScalarFillNone); (false, false, true, RArrayEmptyNone);
+                 (true, false, false, RSpecies OverFileSpecies fixed); (true, false, true, RSpecies OverFileSpecies fixed);
+                 (false, true, false, RModes OverThrustModes fixed);
+                 (true, true, false, RSpeciesModes OverFileSpecies OverThrustModes fixed)];
+     cf_written_test := (fixed, fixed);
+     cf_read_empty_optional_is_none := fixed;
+     cf_reader_gets_species_of_its_file := true;
+     cf_npoints_skips_unset := fixed;
+     cf_species_dim_from_argument := true;
+     cf_modes_dim_from_enum := true;
+     cf_create_species_of_first_trajectory := true;
+     cf_mapped_species_of_first_result := true;
+     cf_species_skip_unset_fields := fixed |}.
+
+(* the (has_sp, has_tm[, has_point]) coordinates of a shape *)
+Definition has_mode (s : shape) : bool := match s with ShTM | ShTSM => true | _ => false end.
+
+Definition wcase_of (cf : code_facts) (s : shape) : option wcase :=
+  option_map snd (find (fun e => Bool.eqb (fst (fst e)) (has_species s) && Bool.eqb (snd (fst e)) (has_mode s)) (cf_write cf)).
+Definition rcase_of (cf : code_facts) (s : shape) : option rcase :=
+  option_map snd (find (fun e => Bool.eqb (fst (fst (fst e))) (has_species s) && Bool.eqb (snd (fst (fst e))) (has_mode s)
+                                 && Bool.eqb (snd (fst e)) (has_point s)) (cf_read cf)).
+
+(* which (slot, species) pairs a loop over a sequence visits *)
+Definition slots_of (src : seq_src) (fsp : list nat) : list (nat * nat) :=
+  match src with
+  | OverFileSpecies => enum_from 0 fsp
+  | OverSpeciesEnum => map (fun e => (e, e)) (seq 0 16)
+  | OverThrustModes => map (fun e => (e, e)) (seq 0 4)
   end.
